@@ -55,6 +55,11 @@ def programs(t):
         # which one the thread map ends with depends on the order - that key is not compared - but never the learned NAMES)
         'thread-data-about-a-siblings-child': [ev('PERF_THD_Data', 0, (900 + t, 100 + (t % 3 + 1), 0, 1), t), ev('BSC_getppid', 1, tid=t),
                                                ev('BSC_getppid', 2, (0, 1, 0, 0), t)],
+        # records whose event id no table names (all four qualifiers) inside a call of the thread
+        'call-with-nameless-records': [ev('BSC_getegid', 1, tid=t), ev(0xdead0000, 0, (t, 1, 1, 1), t), ev(0xdead0010, 1, (t, 2, 2, 2), t), ev(0xdead0010, 2, (t, 3, 3, 3), t),
+                                       ev(0xdead0020, 3, (t, 4, 4, 4), t), ev('BSC_getegid', 2, (0, 1, 0, 0), t)],
+        # the thread that reaps a sibling: its terminate record names ANOTHER participating thread
+        'reaps-a-sibling': [ev('BSC_getgid', 1, tid=t), ev('TRACE_DATA_THREAD_TERMINATE', 0, (t % 3 + 1, 0, 0, 0), t), ev('BSC_getgid', 2, (0, 1, 0, 0), t)],
         'exec+rename': [ev('TRACE_DATA_EXEC', 0, (pid + 2, 0, 0, 0), t), ev('BSC_getpid', 1, tid=t), ev('TRACE_STRING_EXEC', 0, tid=t, data=S(nm + b'y')),
                         ev('BSC_getpid', 2, (0, pid, 0, 0), t)],
     }
@@ -170,7 +175,7 @@ def judge(combo, schedule, trunc, prefilled=False):
 class C05(Check):
     pid = 'C05'
     level = 'model_checking'
-    rule = ('schedules: for every ordered pair (and, per tier, triple) of per-thread programs from a library of 17 (syscall with '
+    rule = ('schedules: for every ordered pair (and, per tier, triple) of per-thread programs from a library of 19 (syscall with '
             'lookup, NEWTHREAD data+string, EXEC data+string, nested syscalls, thread name + terminate, sampler window, global '
             'string + dlopen, 3-record lookup inside stat64, page fault with nested record, launch with nested map, EXEC pair with '
             'an unrelated syscall in between, NEWTHREAD pair announcing a sibling participant\'s thread id, two ENDs whose STARTs fell before the capture, a read whose records are byte-identical on every thread, a call interrupted by the lost-events marker of the kernel, a NEWTHREAD pair whose thread id is numerically the process id a sibling names), each parameterised by its own tid/pid/names, EVERY interleaving (merge preserving '
@@ -232,6 +237,9 @@ class C05(Check):
             return self.run_long_gap(acc)
         _, combos, trunc = desc
         for combo in combos:
+            if 'reaps-a-sibling' in combo and any(x in combo for x in ('newthread-of-sibling', 'threadname+terminate', 'thread-data-about-a-siblings-child')):
+                # same caveat: the terminate record of a sibling renders the pid / name other threads may have declared for it
+                continue
             if 'newthread-of-sibling' in combo and 'threadname+terminate' in combo:
                 # the statement's caveat: thread-terminate renders the pid from the table another thread's NEWTHREAD record
                 # writes (by design); these two programs are not combined
